@@ -332,6 +332,7 @@ func (p *SubmitSM) Resp() interface{} {
 type SubmitSMResp struct {
 	Header    Header `id:"80000004"`
 	MessageID string
+	Tags      Tags
 }
 
 // Unbind see SMPP v5, section 4.1.1.8 (61p)
